@@ -30,7 +30,7 @@ def handle (op : Json) : R Json := do
     let (n, e, serr, same) := lock ⟨natD op "n" 0, natD op "e" 0 != 0⟩ (natD op "se" 0 != 0)
     return obj [("n", jnat n), ("err", jbool e), ("serr", jbool serr), ("same", jbool same)]
   | "writer" =>
-    let p ← hexFld op "p"
+    let p := hexFldD op "p"
     let (n, e) := writerWrite p
     return obj [("n", jnat n), ("err", jbool e)]
   | "lockconc" =>
